@@ -6,7 +6,7 @@ func init() {
 		Title: "Planning and responses are deterministic",
 		Kernels: []Kernel{
 			{Name: "map-orders", Pkg: ".", Files: []string{"root/fed.go", "root/c01.go", "root/c02.go", "root/c13.go"}, Entry: "VerifDeterminism", Mode: "seq", Native: true,
-				Quick: map[string]int{"k": 2, "maporder": 1}, Thorough: map[string]int{"k": 2, "maporder": 2},
+				Quick: map[string]int{"k": 2, "maporder": 1}, Thorough: map[string]int{"k": 1, "maporder": 2},
 				Reach: []string{"two runs compared"}, Functions: pipelineFns},
 			{Name: "batch-interleavings", Pkg: ".", Files: []string{"root/fed.go", "root/c01.go", "root/c08.go"}, Entry: "VerifBatch", Mode: "all", Race: true,
 				Quick: map[string]int{"rmax": 2, "classes": 14}, Thorough: map[string]int{"rmax": 2, "classes": 14},
